@@ -23,7 +23,13 @@ class C06(Check):
             "are the zone's skeleton (C06/lex-render/skeleton); exhaustive stream: 2 owner forms x 5 TTL/class "
             "shapes x 8 combinations of TTL sources (default, $TTL, stated earlier) x 3 renderings; 120 $GENERATE "
             "templates (ranges with steps, $ and ${offset,width,base} in bases d/o/x/X, escaped \\$) against an "
-            "independent expansion; 120 $INCLUDE scenarios (before / file with optional origin argument / after, "
+            "independent expansion; the $GENERATE limit sweep: start in {0, 1, 65535, 2^32+7, such that stop = 2^63-1} x "
+            "step in {1,2,3,100,25000,65535,65536} x number of steps in {0,1,2,65534,65535,65536,65537} x stop "
+            "on / just before the next value: within the documented limit of 65535 steps every record is checked "
+            "(one per step, value start+i*step, then the following line's record), one step more must be refused "
+            "(C06/generate/limits); model cases 'range' (range parser), 'genvalues' (ZoneSpec gen_values: count, "
+            "first, last) and 'parse' (whole parser, ranges of up to 3 records and refused ones); "
+            "120 $INCLUDE scenarios (before / file with optional origin argument / after, "
             "FS and no FS) against before ++ denote(file) ++ after; TTL texts and name completion against the "
             "library helpers. Model cases: the Coq denote on every abstract zone (case 'denote') must print the Go "
             "denotation, the Coq lexer on the plain rendering must realize the Coq skeleton (case 'skel'), and the "
